@@ -79,6 +79,7 @@ func init() {
 				}
 				// the boundary-literal family adds nothing for chunking; long special-length documents are not edited
 				fams = drop(fams, "json-int-boundaries")
+				inv = drop(inv, "cbor-deeper", "ubj-deeper", "json-deeper") // hundreds of bytes: edited variants add nothing over the edited 31-70 level documents
 				if tier != "thorough" {
 					fams = drop(fams, "ubj-noop-insertions")
 				}
@@ -131,7 +132,7 @@ func c02Body(x *engine.Exec, c *DocCase, full int, edited bool) {
 	if edited {
 		chunks = chooseChunksLight(x, len(doc))
 		entry = 2 * x.Choose(2)
-	} else if len(doc) > 64 && x.Tier != "thorough" {
+	} else if (len(doc) > 64 && x.Tier != "thorough") || len(doc) > 200 {
 		// long documents (deep nesting, marker-valued lengths): whole, every single cut, single bytes
 		chunks = chooseChunksLight(x, len(doc))
 		entry = x.Choose(4)
